@@ -38,6 +38,7 @@ PROPS = {
     "C15": "vf.harness.C15",
     "C16": "vf.harness.C16",
     "C18": "vf.harness.C18",
+    "C19": "vf.harness.C19",
     "C14": "vf.harness.C14",
 }
 
